@@ -1,4 +1,3 @@
-import os as _os
 HDR = TOK + ["src/HttpHeader.cc", "src/HttpHeaderTools.cc", "src/http/RegisteredHeaders.cc", "src/http/ContentLengthInterpreter.cc",
              "src/http/one/Parser.cc", "src/String.cc", "src/StrList.cc", "src/MemBuf.cc", "src/mime_header.cc", "src/SquidConfig.cc",
              "src/ip/Address.cc", "src/helper/ChildConfig.cc", "lib/util.cc", "compat/xstring.cc"]
@@ -14,14 +13,22 @@ _VT = _V + "clock symbolic in [0,2^31), If-Modified-Since flag symbolic, stored 
 _X = ("HttpReply::hdrCacheInit()/hdrExpirationTime(): receipt time, Date (present with any time, or absent), Expires (absent, any time, or unparsable), "
       "Cache-Control object absent or any mask with any 31-bit max-age/s-maxage; " + _T)
 _C = lambda t0: ("reply as in c12_expiry, stored by the real StoreEntry::timestampsSet() at receipt time " + t0 + " (no Age field, direct fetch), then refreshCheck() for a plain "
-      "request (no Cache-Control, no reload) at any later time; no revalidation marks on the entry; " + _T + "; KNOWN-FINDING candidate class F1 excluded (see assumptions)")
+      "request (no Cache-Control, no reload) at any later time; no revalidation marks on the entry; " + _T + "; known-finding class C12-unparsable-expires-old-date excluded (see assumptions)")
 _L = lambda t0: ("reply with Date (any time), Expires (any time or unparsable), Last-Modified (any time), no Cache-Control; otherwise as c12_chain (receipt time " + t0 + "); "
-      "KNOWN-FINDING candidate classes F1, F2 excluded (see assumptions)")
+      "known-finding classes C12-unparsable-expires-old-date and C12-expires-before-epoch-rebase excluded (see assumptions)")
 _Q0, _T0 = "10^9", "symbolic in [0,2^31)"
+_k = lambda n, b: dict(name=n, known=True, bounds=b, reach=[], max_samples=0, sample_every=0, jobs=1)
+_KNOWN = lambda t0: [
+    _k("c12_known_unparsable_expires", "KNOWN FINDING C12-unparsable-expires-old-date only: reply with Date more than 24 h before the receipt time (" + t0 + "), unparsable "
+       "Expires, no Cache-Control, no Last-Modified; plain request at any later time; its violation is listed in known_findings.json and printed as KNOWN-FINDING"),
+    _k("c12_known_expires_rebase", "KNOWN FINDING C12-expires-before-epoch-rebase only: reply received at 10^9 with Date after the receipt time, Expires (valid or unparsable, "
+       "taken as the receipt time) <= Date - receipt - 1, Last-Modified 9*10^8, no Cache-Control; plain request at any later time; its violation is listed in "
+       "known_findings.json and printed as KNOWN-FINDING"),
+    _k("c12_known_immutable_max_age", "KNOWN FINDING C12-immutable-ignores-request-max-age only: request 'Cache-Control: max-age=N' with N = 0 or N < age, stored reply "
+       "'Cache-Control: immutable', unmarked entry, otherwise as c12_verdict; its violation is listed in known_findings.json and printed as KNOWN-FINDING"),
+]
 _R1 = ("must-revalidate", "request-max-age", "reload", "beyond-max-stale", "expired-stale", "fresh-by-max-stale", "fresh-expires", "other")
 SPEC = dict(
-    # C12_SHOW=<bit mask> re-admits KNOWN-FINDING candidate classes (bit 0 = F1, bit 1 = F2) to show their counterexamples
-    defines=(["C12_SHOW=" + _os.environ["C12_SHOW"]] if _os.environ.get("C12_SHOW") else []),
     harness="C12_stale.cc", units=_U, unit_flags={"compat/xstring.cc": ["-Dxstrdup=vf_unused_squid_xstrdup"]},
     native_units=["src/sbuf/Algorithms.cc"],
     o0_units=["HARNESS", "src/store.cc", "src/HttpReply.cc"], ub=True, ub_files=["refresh.cc", "store.cc", "HttpReply.cc"],
@@ -34,7 +41,7 @@ SPEC = dict(
                "an unmarked entry; no arithmetic UB in refresh.cc. (K2) HttpReply::hdrExpirationTime() = Date + s-maxage | Date + max-age | Expires | none in this "
                "precedence (receipt time for a missing Date or unparsable Expires). (K3) from header values through the real StoreEntry::timestampsSet() to the verdict "
                "of a later plain request: once (now - receipt time) >= s-maxage | max-age | Expires - Date the verdict is STALE_*, for every Date skew -- except the two "
-               "candidate-finding classes F1, F2 listed in assumptions. "
+               "known-finding classes listed in assumptions. "
                "gap: what clientReplyContext::cacheHit()/processExpired()/handleIMSReply() (client_side_reply.cc) do with the verdict (revalidation request, serving the "
                "stale copy when revalidation fails unless failOnValidationError); that every hit runs refreshCheckHTTP() (internal requests, collapsed hits, "
                "ENTRY_SPECIAL, offline_mode skip it); plain flags.noCache requests (Cache-Control: no-cache without nocache_hack), which skip the store lookup in "
@@ -42,10 +49,10 @@ SPEC = dict(
                "kernel K2); Age header and peer response-time corrections in timestampsSet(); ICP/HTCP/cache-digest uses of refreshCheck; the floating-point LM-factor "
                "rule; parsing of the date texts (C35) and of Cache-Control (C29)",
     entries=dict(
-        quick=[_e("c12_verdict", _VQ, _R1), _e("c12_expiry", _X, ("explicit-expiry", "no-explicit-expiry"), jobs=2),
-               _e("c12_chain", _C(_Q0), ("lifetime-passed", "fresh")), _e("c12_chain_lm", _L(_Q0), ("lifetime-passed", "fresh"))],
-        thorough=[_e("c12_verdict", _VT, _R1, jobs=8), _e("c12_expiry", _X, ("explicit-expiry", "no-explicit-expiry"), jobs=2),
-                  _e("c12_chain", _C(_T0), ("lifetime-passed", "fresh")), _e("c12_chain_lm", _L(_T0), ("lifetime-passed", "fresh"), jobs=2)]),
+        quick=[_e("c12_verdict", _VQ, _R1, jobs=6), _e("c12_expiry", _X, ("explicit-expiry", "no-explicit-expiry"), jobs=1),
+               _e("c12_chain", _C(_Q0), ("lifetime-passed", "fresh"), jobs=8), _e("c12_chain_lm", _L(_Q0), ("lifetime-passed", "fresh"), jobs=1)] + _KNOWN(_Q0),
+        thorough=[_e("c12_verdict", _VT, _R1, jobs=8), _e("c12_expiry", _X, ("explicit-expiry", "no-explicit-expiry"), jobs=1),
+                  _e("c12_chain", _C(_T0), ("lifetime-passed", "fresh"), jobs=6), _e("c12_chain_lm", _L(_T0), ("lifetime-passed", "fresh"), jobs=2)] + _KNOWN(_T0)),
     timeout=dict(quick=600, thorough=2400),
     stubs=["Time::ParseRfc1123() (src/time/rfc1123.cc not linked) maps the marker texts '@D' '@E' '@L' to the harness's symbolic Date/Expires/Last-Modified times and "
            "everything else to -1 (unparsable): date text parsing is C35's subject",
@@ -58,11 +65,11 @@ SPEC = dict(
            "refresh_all_ims/reload_into_ims/offline_mode/vary_ignore_expire off", "StatHist::enumInit/count no-ops", "debugs() disabled"],
     assumptions=["'explicit freshness lifetime passed' = now >= entry expiry time (K1) / now - receipt time >= s-maxage | max-age | Expires - Date with RFC 9111 4.2.1 "
                  "precedence, Date = receipt time when missing, unparsable Expires = already expired (K3); resident time is a lower bound of RFC 9111's current_age",
-                 "KNOWN-FINDING candidate (K1): a request max-age (also max-age=0) is ignored when the stored reply has Cache-Control: immutable (RFC 8246 behaviour chosen "
-                 "by Squid); that class is not claimed",
-                 "KNOWN-FINDING candidate F1 (K3, excluded by vf_assume): lifetime from an unparsable Expires and a Date more than 24 h older than Squid's clock -> "
+                 "known finding C12-immutable-ignores-request-max-age (examined only by entry c12_known_immutable_max_age; c12_verdict does not make claim A2 for the class): "
+                 "a request max-age (also max-age=0) is ignored when the stored reply has Cache-Control: immutable (RFC 8246 behaviour chosen by Squid)",
+                 "known finding C12-unparsable-expires-old-date (examined only by entry c12_known_unparsable_expires, excluded from the others by vf_assume): lifetime from an unparsable Expires and a Date more than 24 h older than Squid's clock -> "
                  "entry expiry = receipt + (receipt - Date): FRESH_EXPIRES for as long as the Date was old",
-                 "KNOWN-FINDING candidate F2 (K3, excluded by vf_assume in c12_chain_lm): lifetime from Expires, Date ahead of Squid's clock and Expires <= Date - receipt - 1 "
+                 "known finding C12-expires-before-epoch-rebase (examined only by entry c12_known_expires_rebase, excluded from the others by vf_assume): lifetime from Expires, Date ahead of Squid's clock and Expires <= Date - receipt - 1 "
                  "-> rebased expiry <= -1 is read as 'no explicit expiry' and with Last-Modified the LM-factor rule answers FRESH_LMFACTOR_RULE",
                  "observation outside the bounds: refreshStaleness() returns time_t differences as int; with clock + min-fresh >= 2^31 + expiry (after 2038 or absurd "
                  "min-fresh) the staleness wraps negative (within the bounds the verdict stays STALE_*, only STALE_MUST_REVALIDATE may degrade to STALE_EXPIRES)"],
